@@ -124,7 +124,13 @@ def deps():
                 for xi in range(3):
                     interp.append(TCp(R, nodes[ai], nodes[xi]) == ((ai, xi) in d))
         Ec = Const('E_c', REL); interp.append(Ec == rel(E))
-        total += check('DEP_AX[1:]', DEP_AX[1:], interp + [And(*[Not(TCp(rel(EE), a, b)) for EE in [E] for a in U for b in U if a is null or b is null])], {str(REL): [Ec], str(T.z): nodes})
+        generic = [ax for ax in DEP_AX[1:] if 'lastp' not in str(ax) and 'hint' not in str(ax)]          # skolemised axioms (wit, lastp) are existential: checked as "a witness exists" below
+        d0_ = tc(E)
+        for (a_i, x_i) in d0_:              # G4: every path has a last step
+            total += 1
+            if not any((p_i, x_i) in E and (a_i == p_i or (a_i, p_i) in d0_) for p_i in range(3)):
+                global bad; bad += 1; print('G4 FALSE for', sorted(E), a_i, x_i)
+        total += check('DEP_AX[1:]', generic, interp + [And(*[Not(TCp(rel(EE), a, b)) for EE in [E] for a in U for b in U if a is null or b is null])], {str(REL): [Ec], str(T.z): nodes})
         setsz = []
         for Vs in sets:
             sv = K(T.z, False)
@@ -139,7 +145,7 @@ def deps():
                 total += 1
                 if ac0 and not ac1:
                     if not any(w == s_i or (s_i, w) in d0 for w in Vs):
-                        global bad; bad += 1; print('G1 FALSE for', sorted(E), s_i, sorted(Vs))
+                        bad += 1; print('G1 FALSE for', sorted(E), s_i, sorted(Vs))
     return total
 
 
